@@ -4,7 +4,8 @@ Inputs (scratch, outside /verif): seed dirs, rebased patches, confirmation resul
 import json, os, re, shutil, sys, glob
 ROOT='/verif/seeded'
 rounds=[('r1','/tmp/seed','/tmp/seedfix','/tmp/confirm/results.txt','/tmp/seedruns.txt'),
-        ('r2','/tmp/seed2',None,'/tmp/confirm2/results.txt','/tmp/seedruns2.txt')]
+        ('r2','/tmp/seed2',None,'/tmp/confirm2/results.txt','/tmp/seedruns2.txt'),
+        ('r3','/tmp/seed3',None,'/tmp/confirm3/results.txt','/tmp/seedruns3.txt')]
 # what I know about whether the obligation that catches a seed existed before I looked at the seed
 AFTER={
  'r1':{'C15/1':'Flush contract written after the seed was seen','C15/2':'compileRepeat contract was planned, written after the seed was seen',
@@ -15,12 +16,17 @@ AFTER={
   'C05/2':'mixed-and-or clause added after the seed was missed','C06/1':'same clause as C05/2','C06/2':'round() contract written knowing the seed (the clause is the documented rule)',
   'C12/1':'bounded shape stand-in added after the seed was missed','C07/1':'bounded oracle added after the seed was missed (the oracle also found two real defects)',
   'C07/2':'HAVING part of the bounded oracle added after the seed was missed','C02/2':'caught at first run by an invariant; a sharper postcondition was added afterwards'},
- 'r2':{}}
+ 'r2':{}, 'r3':{}}
+# rounds 2 and 3: what the checks said the first time they saw the seed, and what was written afterwards (kept in /verif)
+PROV=json.load(open('/verif/seeded_provenance.json')) if os.path.exists('/verif/seeded_provenance.json') else {}
+for rd in ('r2','r3'):
+    AFTER[rd].update(PROV.get(rd,{}).get('after',{}))
+FIRST={rd:PROV.get(rd,{}).get('first_run',{}) for rd in ('r1','r2','r3')}
 lines=['# Seeded changes: what is kept here and which check catches what','',
  'Produced by fresh sub-agents that saw only one property and a scratch worktree (round 2: a worktree without the contract files).',
  'Confirmation = in a scratch worktree: the demonstration passes on the unchanged code, fails with the patch, and the full suite passes with the patch.',
  'Detection = `tools/try_seed.sh <patch> <property>` (applies the patch to /repo transiently, runs the quick check, reverts).','',
- '| seed | where | confirmed | check result | first obligations reported | contract existed before the seed was seen? |','|---|---|---|---|---|---|']
+ '| seed | where | confirmed | first run (rounds 2, 3) | check result now | first obligations reported | written after the seed was seen |','|---|---|---|---|---|---|---|']
 for rd,seeddir,fixdir,conf,runs in rounds:
     confd={}
     if os.path.exists(conf):
@@ -46,7 +52,7 @@ for rd,seeddir,fixdir,conf,runs in rounds:
             ok=('demo_clean_exit=0' in c and 'demo_patched_exit=1' in c and 'suite_exit=0' in c)
             dst=f'{ROOT}/{P}/{rd}_{n}'
             if not ok:
-                lines.append(f'| {rd} {key} | – | NOT confirmed ({c}) | not kept | | |')
+                lines.append(f'| {rd} {key} | – | NOT confirmed ({c}) | | not kept | | |')
                 continue
             os.makedirs(dst,exist_ok=True)
             shutil.copy(src+'/patch.diff',dst+'/patch.diff')
@@ -61,6 +67,8 @@ for rd,seeddir,fixdir,conf,runs in rounds:
             json.dump(meta,open(dst+'/meta.json','w'),indent=1)
             where=meta.get('summary','').split(':')[0][:70]
             first=' '.join(re.findall(r'[\w#@.$()*\-~/]+\.json',r)[:2])[:110]
-            lines.append(f"| {rd} {key} | {where} | yes{' (rebased)' if rebased else ''} | {'CAUGHT' if caught else 'MISSED'} | {first} | {AFTER[rd].get(key,'yes / not recorded otherwise')} |")
+            meta['first_run']=FIRST[rd].get(key,'' if rd!='r1' else 'not recorded for round 1')
+            json.dump(meta,open(dst+'/meta.json','w'),indent=1)
+            lines.append(f"| {rd} {key} | {where} | yes{' (rebased)' if rebased else ''} | {FIRST[rd].get(key,'')[:60]} | {'CAUGHT' if caught else 'MISSED'} | {first} | {AFTER[rd].get(key,'– (caught as the checks stood)' if rd!='r1' else 'not recorded otherwise')} |")
 open(ROOT+'/RESULTS.md','w').write('\n'.join(lines)+'\n')
 print('\n'.join(lines[-45:]))
